@@ -10,6 +10,10 @@
 // reconstructed prefix set is compared with the publisher's announced set at the log position the
 // peer has reached (C19.log); a closure of sync + fetch steps with no further publisher operation
 // must reach the end of every reachable publisher's log (C19.progress).
+//
+// Component level (fibunit.go, fiblarge.go, localbfs.go, component.go): the installer (real
+// table.Fib + nfdc queue) is also searched on its own, in the parent process, over exhaustive
+// next-hop list universes and over passes larger than the command queue (C19.mirror, C19.cmd).
 package main
 
 import (
@@ -61,6 +65,12 @@ var defs = map[string]cfgDef{
 	// second-best cost over r2 and r3 (tie on the second-best hop); links 1-2 / 1-3 may fail
 	"mirror-diamond": {graph: "n4:01-02-03-12-13", prefixes: map[int][]string{1: {"/p1"}}, announced: true,
 		faults: [][2]int{{1, 2}, {1, 3}}, burstAt: -1, exchange: true, dq: 4, dt: 6, dev: 2},
+	// installer: kite, observer r0 - r1 - {r2, r3} plus the direct link r0 - r3; /p1 multi-homed at r2
+	// and r3, which sit at the same distance behind r1: when the direct link fails (and the dead
+	// neighbour is removed) or comes back, r3 moves between its own face and the face r2 is behind,
+	// so the next-hop list handed to the installer holds the same (face, cost) more than once
+	"mirror-kite": {graph: "n4:01-03-12-13", prefixes: map[int][]string{2: {"/p1"}, 3: {"/p1"}}, announced: true,
+		faults: [][2]int{{0, 3}}, burstAt: -1, exchange: true, dq: 4, dt: 6, dev: 2},
 	// installer under a failing forwarder: publisher r0 (/p1 announced), observer r1; the forwarder
 	// of r1 rejects one rib command (deviation Fm(1,k): the (k+1)-th next one); retries that the
 	// management thread defers run when time passes (Tk)
@@ -383,6 +393,9 @@ func (y *sys) CheckState(i any) []report.Violation {
 }
 
 func build(cfg string) explore.System {
+	if y := buildLocal(cfg, os.Getenv("VERIF_TIER") == "thorough"); y != nil {
+		return y // component-level configurations (searched in the parent process; built here for --replay)
+	}
 	d, ok := defs[cfg]
 	if !ok {
 		report.Fatal("unknown config %q", cfg)
@@ -415,7 +428,9 @@ func main() {
 	if _, w := explore.IsWorker(); !w {
 		dvsim.ResetFallbackDir("C19")
 	}
-	order := []string{"mirror-star3", "mirror-diamond", "mirror-retry", "mirror-line3", "mirror-tri", "mirror-square", "log-pair", "log-join"}
+	// the two most expensive configurations last: the budget is shared evenly over the configurations
+	// still to run, so on a loaded machine they get whatever the cheap ones did not need
+	order := []string{"mirror-star3", "mirror-diamond", "mirror-kite", "mirror-retry", "mirror-tri", "mirror-square", "log-pair", "mirror-line3", "log-join"}
 	explore.Main(explore.Spec{
 		ID: "C19", PanicClause: "C19.panic", Build: build,
 		Configs: func(th bool) []explore.Config {
@@ -424,7 +439,10 @@ func main() {
 				order = strings.Split(only, ";") // development aid
 			}
 			for _, n := range order {
-				d := defs[n]
+				d, ok := defs[n]
+				if !ok {
+					continue // a component-level configuration (component.go)
+				}
 				depth := d.dq
 				if th {
 					depth = d.dt
@@ -442,9 +460,10 @@ func main() {
 			}
 			return 100 * time.Second
 		},
-		Rule: "BFS over histories of prefix announce/withdraw/burst, prefix sync, prefix fetch (success/timeout), advertisement exchange, neighbour face change (active/passive), link failure/repair + dead-neighbour check and router restart on real dv.Router objects, from the converged state of 8 small configurations; after every transition: drained nfdc command stream replayed into a (name,face) route table vs from-scratch computation from the current tables; peers' reconstructed prefix sets vs publisher's set at the peer's log position; closure of sync+fetch steps must reach the end of the log",
+		Rule: "BFS over histories of prefix announce/withdraw/burst, prefix sync, prefix fetch (success/timeout), advertisement exchange, neighbour face change (active/passive), link failure/repair + dead-neighbour check and router restart on real dv.Router objects, from the converged state of 9 small configurations (one of them with a multi-homed prefix whose two announcers sit behind the same face at the same cost); after every transition: drained nfdc command stream replayed into a (name,face) route table vs from-scratch computation from the current tables; peers' reconstructed prefix sets vs publisher's set at the peer's log position; closure of sync+fetch steps must reach the end of the log; PLUS component level (in-process BFS on the real table.Fib + nfdc queue, driven as Router.fibUpdate drives them: UnmarkAll, UpdateH/MarkH per name, RemoveUnmarked): every pass history to a fixpoint over exhaustive next-hop list universes (raw lists of <= 3 entries over 3 faces x costs {1,2,infinity}; concatenations of <= 2 (best, second-best) pairs, duplicates included), the same without state merging to depth 3/4 passes, and passes that change more routes than the command queue holds with the real management loop in a goroutine and the slowest admissible forwarder",
 		Extra: func(rep *report.Reporter, cov report.Coverage) {
 			cov["configs_computed_by_plain_reexecution_after_restore_mismatch"] = dvsim.FallbackConfigs("C19")
+			runComponentLevel(rep, cov)
 		},
 		Assumptions: []string{
 			"harness network: prefix sync state vectors and prefix data Interests reach any router connected over live links; a fetch for an unreachable or stopped router times out",
@@ -456,6 +475,8 @@ func main() {
 			"where per-neighbour costs tie, every tied neighbour is accepted as best / second-best next hop; the from-scratch computation uses the per-neighbour costs of the RIB entries, not their stored next-hop fields",
 			"the forwarder accepts every management command except under the deviation Fm (one rib command of one router rejected once; quick: <= 1 per history, thorough: <= 2); the mirror clause is evaluated when no retry timer of the code under test is pending (virtual time is advanced until they have run)",
 			"router names have two components (/ndn/rN) except in log-pair (/ndn/site/dept/rN)",
+			"component level (fib-*): the installer is driven with the call sequence of Router.fibUpdate (UnmarkAll; once per name of the desired map: UpdateH, MarkH if it returned true; RemoveUnmarked); the mirror clause is evaluated at the end of each pass (the pass runs under the router mutex), against the lists of that pass alone; the canonical state leaves out the private previous-cost field (overwritten before it is read by the next UpdateH) - audited by fib-steps-prevcost, which includes it, and by the searches without state merging",
+			"component level, small universes: the commands are taken from the queue without the management goroutine (VerifDrain); fib-large runs the real NfdMgmtThread.Start in a goroutine on a harness engine that holds the first command of a pass until the goroutine running the pass is blocked on the queue (runtime.Stack state 'chan send' / 'select') or the pass has returned - a forced schedule, no wall-clock oracle (two wall-clock hang guards of 30 s / 60 s exist; their trips are counted in the evidence and are 0); the queue capacity is a literal in NewNfdMgmtThread, so it is read from the live object (cap of the channel) and the table is sized capacity + 9 names",
 			"successor states are computed by restoring saved table contents into the live router objects and executing one operation; restores are cross-checked against plain re-execution (first 25 and every 400th per worker)",
 		},
 	})
